@@ -49,7 +49,9 @@ class FunctionNode(ConfigDict):
 
     @namespace('ayns')
     def on_merge_impl(self, prefix, other):
-        if isinstance(other, str):
+        # (a plain string names a target; nodes which merely are implemented on top of str - "!xref", "!eval",
+        # f-strings, "!import", ... - are values like any other: they replace this node, or lose to it, by priority)
+        if isinstance(other, str) and other._is_primary_type_dynamic():
             if other.ayns.has_priority_over(self, if_equal=True):
                 if self._func != other:
                     self._func = other
